@@ -350,6 +350,10 @@ def run(prog, rep, tier):
     if check_derived_refresh(prog, rep) < 2:
         raise AnalysisError('GEOM-derived-refresh: writers of HelicalLattice._N_cells not found')
     check_box_corner(prog, rep)
+    rep.rule('GEOM-shape-nonpositive', 'the early exit of possible_(multi_)couplings covers negative '
+             'coupling shapes (displacement longer than an open direction), not only zero')
+    if check_shape_nonpositive(prog, rep) < 2:
+        raise AnalysisError('GEOM-shape-nonpositive: users of (multi_)coupling_shape not found')
     if check_size_rounding(prog, rep) < 1:
         raise AnalysisError('GEOM-size-rounding: the row count of mps2lat_values_masked not found')
     if check_exact_div(prog, rep) < 2:
@@ -612,3 +616,59 @@ def check_box_corner(prog, rep):
                       'wrongly in directions where every operator has a positive offset' %
                       (unparse(ext[0]), unparse(corner.value), unparse(ext[0].right)), corner.lineno)
     return 1
+
+
+# ------------------------------------------------------------------ GEOM-shape-nonpositive
+def check_shape_nonpositive(prog, rep):
+    """GEOM-shape-nonpositive: the coupling shape `L - box*bc` of (multi_)coupling_shape is
+    NEGATIVE for a displacement longer than an open direction. Every function that obtains it and
+    goes on to use it as array dimensions (np.indices, np.zeros, to_array, np.mod) first leaves
+    through a test that covers all non-positive entries (`s <= 0` / `s < 1`), not only `s == 0`."""
+    m = prog.module('tenpy/models/lattice.py')
+    n = 0
+    for q, f in m.functions.items():
+        got = None
+        for st in stmts_of(f):
+            if isinstance(st, ast.Assign) and isinstance(st.value, ast.Call) and (
+                    call_name(st.value) or '').split('.')[-1] in ('coupling_shape',
+                                                                   'multi_coupling_shape') and \
+                    unparse(st.value.func).startswith('self.'):
+                t = st.targets[0]
+                if isinstance(t, ast.Tuple) and isinstance(t.elts[0], ast.Name):
+                    got = (t.elts[0].id, st)
+        if not got:
+            continue
+        name, st0 = got
+        if not any(isinstance(c, ast.Call) and (call_name(c) or '').split('.')[-1] in (
+                'indices', 'zeros', 'empty', 'ones', 'mod', 'to_array') and any(
+                    isinstance(a, ast.Name) and a.id == name for a in c.args)
+                for c in ast.walk(f)):
+            continue        # not used as array dimensions (np.arange(-s, -s + Lc) is empty for Lc < 0)
+        # the early exit: an `if` whose test ranges over the entries of the shape and returns
+        tests = []
+        for st in stmts_of(f):
+            if isinstance(st, ast.If) and st.lineno > st0.lineno and any(
+                    isinstance(x, ast.Name) and x.id == name for x in ast.walk(st.test)) and any(
+                        isinstance(b, ast.Return) for b in ast.walk(st)):
+                tests.append(st)
+        n += 1
+        ok = False
+        for st in tests:
+            for c in ast.walk(st.test):
+                if isinstance(c, ast.Compare) and len(c.ops) == 1 and isinstance(
+                        c.comparators[0], ast.Constant):
+                    op, k = c.ops[0], c.comparators[0].value
+                    if (isinstance(op, ast.LtE) and k == 0) or (isinstance(op, ast.Lt) and k == 1):
+                        ok = True
+        rep.instance('GEOM-shape-nonpositive', {'function': q, 'shape': name,
+                                                'early_exit_tests': [unparse(t.test)[:60]
+                                                                     for t in tests], 'ok': ok})
+        if not ok:
+            rep.violation('GEOM-shape-nonpositive', m, q, 'shape-test:' + name,
+                          '`%s` can have NEGATIVE entries (L - box for a displacement longer than '
+                          'an open direction); the early exit %s does not cover them and the '
+                          'shape is used as array dimensions afterwards (np.indices raises '
+                          '"negative dimensions are not allowed")'
+                          % (name, [unparse(t.test)[:50] for t in tests] or 'is missing'),
+                          st0.lineno)
+    return n
